@@ -290,6 +290,16 @@ func init() {
 			g := gen.GenGraph(gr, o)
 			mergeStats(rep, "gen:", g.Stats)
 			if gr.Chance(1, 3) {
+				// an ES module that is loaded with require() (so it is wrapped and initialised lazily) and only
+				// RE-EXPORTS bindings whose defining module lands in another chunk (a second entry imports it
+				// directly): the wrapped module's export getters read bindings of the other chunk
+				g.Files["rq_state.js"] = "export let rqCounter = 0;\nexport function rqBump() { rqCounter++; return rqCounter; }\np(\"rq_state:start\");\n"
+				g.Files["rq_barrel.js"] = pickS(gr, "export { rqCounter, rqBump } from \"./rq_state.js\";\n", "export * from \"./rq_state.js\";\n", "export { rqCounter as rqCounter, rqBump } from \"./rq_state.js\";\np(\"rq_barrel:start\");\n")
+				g.Files["m0.js"] += "const rqB = require(\"./rq_barrel.js\");\np(\"m0:rq\", rqB.rqCounter, rqB.rqBump(), rqB.rqCounter);\n"
+				g.Files["m1.js"] += "import { rqCounter as rqSeen } from \"./rq_state.js\";\np(\"m1:rq\", typeof rqSeen);\n"
+				rep.stat("gen:required-esm-barrel-reexports-other-chunk")
+			}
+			if gr.Chance(1, 3) {
 				// a binding that reaches an entry's chunk ONLY as a cross-chunk import (re-exported with
 				// `export *` from a module that lives in a shared chunk) next to a module of the same chunk
 				// that declares the same top-level names
